@@ -342,6 +342,10 @@ def lib_eval(s, env, suffixes):
     return call(evaluator, s, env, fresh_funcs(), suffixes)
 
 
+def names_in_tree(t):
+    return bool(X.names_of(t)['vars'])
+
+
 def judge_tree(spec, rec):
     t = spec['tree']
     env = X.default_env(spec['env'])
@@ -395,6 +399,25 @@ def judge_tree(spec, rec):
         if not isinstance(out[0], (int, float, complex)) or out[0] != out[0] or abs(out[0] - ref) > tol:
             raise Violation('tree/numpy-bindings/value', '%r with numpy-scalar variable values gives %r, with builtin '
                             'values %r' % (base, out[0], vals[0]), string=base)
+    # the same formula in a second scope (other variable values, user functions replaced by different ones): its value
+    # is a function of the string AND the scope handed in - nothing may be remembered per string
+    env2 = {k: ((v * 1.5 + 0.25) if k in X.VAR_NAMES else v) for k, v in env.items()}
+    try:
+        ref2, tol2 = X.ref_with_conditioning(t, env2)
+    except Discard:
+        ref2 = None
+    if ref2 is not None and names_in_tree(t) and abs(ref2 - ref) > 10 * (tol + tol2):
+        kind, out = lib_eval(base, env2, suffixes)
+        rec.calls()
+        rec.cls('tree/second-scope')
+        if kind == 'err':
+            if isinstance(out, MITxError) or lib_frames(out.__traceback__)[0] is not None:
+                raise Violation('tree/second-scope/raised', '%r in a second scope raised %s: %s ; reference %r' % (
+                    base, type(out).__name__, out, ref2), string=base)
+            raise out
+        if not isinstance(out[0], (int, float, complex)) or out[0] != out[0] or abs(out[0] - ref2) > tol2:
+            raise Violation('tree/second-scope/value', '%r evaluated to %r in a second scope, reference %r (first scope: '
+                            '%r)' % (base, out[0], ref2, vals[0]), string=base)
     ops = X.ops_of(t)
     names = X.names_of(t)
     if names['suffixes']:
@@ -611,6 +634,45 @@ def judge_invalid(spec, rec):
     return {'string': s, 'error': type(out).__name__}
 
 
+
+# whole strings that other number parsers accept (Python's float()/int(): digit-group underscores, radix prefixes, digits
+# of other scripts, words for infinity / not-a-number) but the documented grammar does not: parse error, or - for the
+# words, which are grammatical NAMES - an undefined-name error; never a value
+NOT_NUMBERS = ['1_0', '1_000.5', '1e1_0', '0x10', '0b1', '0o7', '1__0', '١٢', '１２', '١e1', '1 _0',
+               '²', '3²', '⑦', '1 000', '1,5', "1'000", '1e3e2', '1.2.3', '0x1p3', '1d3', '1f', '1L', '1j2']
+NOT_NUMBER_WORDS = ['nan', 'NaN', 'inf', 'Inf', 'INF', 'infinity', 'Infinity', '-inf', '+inf', 'infty', '-Infinity', 'NAN']
+
+
+def items_not_numbers(tier):
+    for s in NOT_NUMBERS:
+        for allow_inf in (False, True):
+            yield {'s': s, 'word': False, 'allow_inf': allow_inf}
+    for s in NOT_NUMBER_WORDS:
+        for allow_inf in (False, True):
+            yield {'s': s, 'word': True, 'allow_inf': allow_inf}
+
+
+def judge_not_number(spec, rec):
+    s = spec['s']
+    kind, out = call(evaluator, s, {}, {}, {}, allow_inf=spec['allow_inf'])
+    rec.calls()
+    if kind == 'ok':
+        raise Violation('invalid/valued/not-a-number-literal', '%r (allow_inf=%r, empty scope) was given the value %r' % (
+            s, spec['allow_inf'], out[0]), string=s)
+    if not isinstance(out, MITxError):
+        if lib_frames(out.__traceback__)[0] is not None:
+            raise Violation('invalid/not-parse-error/foreign', '%r raised %s: %s' % (s, type(out).__name__, str(out)[:100]))
+        raise out
+    want = (UndefinedVariable, UndefinedFunction) if spec['word'] else (UnableToParse, UnbalancedBrackets, UndefinedVariable,
+                                                                       UndefinedFunction)
+    if not isinstance(out, want):
+        raise Violation('invalid/not-parse-error/not-a-number-literal', '%r raised %s (%s)' % (
+            s, type(out).__name__, str(out)[:100]), string=s)
+    rec.cls('not-number/' + ('word' if spec['word'] else 'literal'))
+    rec.nontrivial()
+    return {'string': s, 'error': type(out).__name__}
+
+
 # ----------------------------------------------------------------------------------------------------
 # case sensitivity
 
@@ -727,6 +789,7 @@ def judge_verdict(spec, rec):
 PARTS = [
     Part('flat', 'enum', judge_flat, items=items_flat, exhaustive=True),
     Part('literals', 'enum', judge_literal, items=items_literals, exhaustive=True),
+    Part('not-numbers', 'enum', judge_not_number, items=items_not_numbers, exhaustive=True, shards=2),
     Part('trees', 'hyp', judge_tree, strategy=strat_trees, budget={'quick': 5000, 'thorough': 150000}),
     Part('invalid', 'hyp', judge_invalid, strategy=strat_invalid, budget={'quick': 3000, 'thorough': 60000}),
     Part('case', 'hyp', judge_case, strategy=strat_case, budget={'quick': 1200, 'thorough': 20000}),
